@@ -54,8 +54,19 @@ def load_findings():
 
 
 def _match(name, pat):
-    """Obligation patterns of known_findings.json: exact name, or a prefix followed by '*'."""
-    return name.startswith(pat[:-1]) if pat.endswith("*") else name == pat
+    """Obligation patterns of known_findings.json: literal text with '*' wildcards ('[' and ']' are literal)."""
+    parts = pat.split("*")
+    if len(parts) == 1:
+        return name == pat
+    if not name.startswith(parts[0]) or not name.endswith(parts[-1]):
+        return False
+    pos = len(parts[0])
+    for mid in parts[1:-1]:
+        j = name.find(mid, pos)
+        if j < 0:
+            return False
+        pos = j + len(mid)
+    return pos <= len(name) - len(parts[-1])
 
 
 def sanitize(name):
@@ -106,9 +117,10 @@ def main(argv=None):
         return 3
 
     V = Verdict(pid, args.tier, seed)
-    ev_path = ROOT / "evidence" / f"{pid}.json"
-    ev_path.parent.mkdir(exist_ok=True)
-    replay_dir = ROOT / "replays" / pid
+    OUT = Path(os.environ.get("VERIF_OUT", str(ROOT)))  # development only: keep scratch runs from touching /verif/evidence
+    ev_path = OUT / "evidence" / f"{pid}.json"
+    ev_path.parent.mkdir(parents=True, exist_ok=True)
+    replay_dir = OUT / "replays" / pid
     replay_dir.mkdir(parents=True, exist_ok=True)
 
     # 0. model conformance (routing tables, library models) against the live objects ----------------
